@@ -22,7 +22,10 @@ def configs():
     return out
 
 
-def scenarios(flavour, n, max_edges, methods, only=None):
+REVERSED_BUILDER = ['method', 'transpose', 'target', 'prio']
+
+
+def scenarios(flavour, n, max_edges, methods, only=None, order=None):
     for seq in canon_sequences(n, max_edges):
         for cfg in configs():
             if only and not only(cfg):
@@ -51,6 +54,8 @@ def scenarios(flavour, n, max_edges, methods, only=None):
                                 s['kind'] = a
                             if method == 'filter':
                                 s['filter'] = {'s': 'F'}
+                            if order and tr and step == 'search':
+                                s['order'] = order          # builder calls of the transposed run in another order
                             return s
                         scen = {'flavour': flavour, 'nodes': nodes,
                                 'steps': pre + [['dump', 'lite'], [step, spec(True, 0)], [step, spec(False, n)]],
@@ -108,6 +113,8 @@ def run(prop, tier, seed):
         items += list(scenarios(fl, 3, m_f, ('filter',)))
         items += list(scenarios(fl, 3, m_e, ('foreach',)))
         items += list(scenarios(fl, 3, m_f, ('none',)))
+        # the builder calls in reverse order (closure, transpose, target, priority) must configure the same search
+        items += list(scenarios(fl, 3, 2, ('none', 'foreach'), only=lambda c: c[0] == 'search', order=REVERSED_BUILDER))
         # priority-first runs only differ from each other once two frontier nodes both lead on: 4 edges, symbolic node values
         items += [it for it in scenarios(fl, 3, m_e + 1, ('none',), only=lambda c: c[1] == 'pfs') if len(it[1]['meta']['seq']) == m_e + 1
                   and (tier != 'quick' or len(set(map(tuple, it[1]['meta']['seq']))) == m_e + 1)]      # quick: no parallel edges in this family
@@ -116,7 +123,7 @@ def run(prop, tier, seed):
     kr = kani_engine.KaniRun('edge_reverse_and_order')       # engine B: Edge::reverse on the compiled code
     return scenario_check(
         prop, tier, seed, items, evaluate, sig_of,
-        bounds={'nodes': 3, 'max_edges_filter': m_f, 'max_edges_for_each': m_e, 'configurations': len(configs()), 'max_edges_pfs_plain': m_e + 1,
+        bounds={'nodes': 3, 'max_edges_filter': m_f, 'max_edges_for_each': m_e, 'configurations': len(configs()), 'builder_order': 'priority-target-transpose-closure, and the reverse on <=2-edge graphs', 'max_edges_pfs_plain': m_e + 1,
                 'symbolic': 'edge values, node values (pfs), filter F shared by both runs',
                 'outside': 'larger graphs; the 14 nominal configurations the API does not offer'},
         assumptions=['std models of engine A', 'the in-list of a node in G lists its edges in the order the out-list of the same node lists them in G^R (follows from C01/C03)',
